@@ -59,7 +59,9 @@ Actual(c) == [k \in 1..Len(c.cps) |-> c.cps[k].moff]
 \* "a consumer that always asks to save is eventually given checkpoints": at most two loop tops pass between
 \* consecutive checkpoints when the source can save at any byte
 LoopTops(c) == {j \in 1..Len(c.msgs) : LoopTopAfter(c, j)}
-Eventually(c) == c.algo = "NONE" =>
+\* (a save requested at one loop top can only be handed out at a LATER loop top: the reader produces the checkpoint
+\*  while it reads the next message. A patch with a single loop top in all cannot hand out any checkpoint.)
+Eventually(c) == (c.algo = "NONE" /\ Cardinality(LoopTops(c)) >= 2) =>
    \A j \in LoopTops(c) : \E k \in 1..Len(c.cps) :
        \E q \in LoopTops(c) : c.msgs[q].end = c.cps[k].moff /\ Cardinality({x \in LoopTops(c) : (x > j /\ x <= q) \/ (x >= q /\ x < j)}) <= 2
 TestViol(c, t) ==
